@@ -4,6 +4,8 @@ package c19
 import (
 	"encoding/json"
 	"fmt"
+	"os"
+	"os/exec"
 	"strconv"
 	"strings"
 	"sync"
@@ -292,4 +294,122 @@ func (prop) Shrink(in json.RawMessage) []json.RawMessage {
 		i += n
 	}
 	return out
+}
+
+// Extra: purity over HISTORIES.  Run only ever calls a converter twice on the same input; a converter that keeps
+// hidden state (a cache keyed too coarsely, a reused buffer) gives the same answer twice and is still not a pure
+// function of its input: the answer depends on what the process converted before.  Hidden state is invisible from
+// inside one process (the first answer is simply repeated), so the same list of related inputs (the same fresh words at
+// different positions) is converted by two fresh child processes, one in list order and one in reverse order; every
+// input must get the same answer in both.
+func histRun(seq []string) []string {
+	var out []string
+	for _, s := range seq {
+		for k := -1; k < len(convs); k++ {
+			var o string
+			p, _ := core.Recover(func() {
+				if k < 0 {
+					o = strings.Join(camelcase.Split(s), "\x00")
+				} else {
+					o = convs[k](s)
+				}
+			})
+			if p {
+				o = "<panic>"
+			}
+			out = append(out, o)
+		}
+	}
+	return out
+}
+
+func init() {
+	core.Children["c19-hist"] = func(args []string) int {
+		var seq []string
+		if err := json.NewDecoder(os.Stdin).Decode(&seq); err != nil {
+			return 2
+		}
+		_ = json.NewEncoder(os.Stdout).Encode(histRun(seq))
+		return 0
+	}
+}
+
+func histChild(seq []string) ([]string, error) {
+	exe, err := os.Executable()
+	if err != nil {
+		return nil, err
+	}
+	in, _ := json.Marshal(seq)
+	cmd := exec.Command("timeout", "120", exe, "c19-hist")
+	cmd.Stdin = strings.NewReader(string(in))
+	b, err := cmd.Output()
+	if err != nil {
+		return nil, err
+	}
+	var out []string
+	return out, json.Unmarshal(b, &out)
+}
+
+func (prop) Extra(r *core.RNG, tier string, _ string) (violations []string, notes []string, stats map[string]any) {
+	ws := []string{"id", "ID", "user", "HTML", "v2", "99", "é", "Über"}
+	for i := 0; i < 12; i++ { // fresh words nobody converted before
+		var b strings.Builder
+		for j, m := 0, 2+r.Intn(4); j < m; j++ {
+			b.WriteByte(byte('a' + r.Intn(26)))
+		}
+		ws = append(ws, b.String())
+	}
+	seps := []string{"_", "-", "", " ", "."}
+	n := 300
+	if tier == "thorough" {
+		n = 3000
+	}
+	seq := append([]string{}, ws...)
+	for i := 0; i < n; i++ {
+		m := 1 + r.Intn(3)
+		var b strings.Builder
+		for j := 0; j < m; j++ {
+			if j > 0 {
+				b.WriteString(core.Pick(r, seps))
+			}
+			w := core.Pick(r, ws)
+			if r.Chance(30) && j > 0 {
+				w = strings.ToUpper(w[:1]) + w[1:]
+			}
+			b.WriteString(w)
+		}
+		seq = append(seq, b.String())
+	}
+	rev := make([]string, len(seq))
+	for i, s := range seq {
+		rev[len(seq)-1-i] = s
+	}
+	a, err1 := histChild(seq)
+	b, err2 := histChild(rev)
+	stats = map[string]any{"history_inputs": len(seq), "history_calls": 2 * 7 * len(seq)}
+	if err1 != nil || err2 != nil {
+		return nil, []string{fmt.Sprintf("history purity run skipped: %v %v", err1, err2)}, stats
+	}
+	per := len(convs) + 1
+	for i, s := range seq {
+		for k := 0; k < per; k++ {
+			x, y := a[i*per+k], b[(len(seq)-1-i)*per+k]
+			if x != y && len(violations) == 0 {
+				// minimise: a single earlier call that changes the answer
+				alone, _ := histChild([]string{s})
+				for _, h := range append(append([]string{}, seq[:i]...), rev[:len(seq)-1-i]...) {
+					if two, err := histChild([]string{h, s}); err == nil && alone != nil && len(two) == 2*per && two[per+k] != alone[k] {
+						violations = append(violations, fmt.Sprintf("not a pure function of its input (minimal history): function #%d (0=Split, 1..6=the six converters) returns %q for %q in a fresh process, but %q when %q was converted before it",
+							k, alone[k], s, two[per+k], h))
+						break
+					}
+				}
+			}
+			if x != y && len(violations) < 4 {
+				violations = append(violations, fmt.Sprintf("not a pure function of its input: function #%d (0=Split, 1..6=the six converters) returns %q for %q in a process that first converted %q, but %q in a process that first converted %q",
+					k, x, s, seq[:i], y, rev[:len(seq)-1-i]))
+			}
+		}
+	}
+	return violations, nil, stats
 }
